@@ -66,7 +66,7 @@ def parse_listing(lst):
                 # a continuation line that carries its own address (extension words): it belongs to the instruction above
                 cur[1].extend(groups)
                 continue
-            cur = [int(m.group(1), 16), groups, text, toks, k]
+            cur = [int(m.group(1), 16), groups, text, toks, k, len(groups)]
             entries.append(cur)
             continue
         if cur is not None and line[:1] in (" ", "\t") and line.strip():
@@ -99,7 +99,7 @@ def judge_listing(cpu, src, files, decode_texts):
         return "rejected", [], None
     img = r.image
     entries, rows, syms, lo, hi = parse_listing(r["lst"])
-    if entries and min(e[0] for e in entries) != 0x100:
+    if not entries or min(e[0] for e in entries) != 0x100:
         return "unjudged", [], None         # the listing's address column is not plain hex address units (octal, page/offset): never judged
     viol = []
     covered = {}
@@ -118,7 +118,7 @@ def judge_listing(cpu, src, files, decode_texts):
                 ua, bs.hex(), bytes(img.get(ua * bpa + i, 0) for i in range(len(bs))).hex())))
     # instruction lines: spans run to the next listed address / next unlisted byte
     starts = sorted(set(e[0] * bpa for e in entries))
-    for ua, groups, text, toks, k in entries:
+    for ua, groups, text, toks, k, nline in entries:
         a = ua * bpa
         nxt = [s for s in starts if s > a]
         end = nxt[0] if nxt else None
@@ -135,11 +135,11 @@ def judge_listing(cpu, src, files, decode_texts):
         if not tile(span, groups):
             # a hex-like mnemonic may have been taken for a group: try giving tokens back to the text
             fixed = False
-            for back in range(1, min(3, len(groups))):
-                g2 = groups[:len(groups) - back] if len(toks) > k - back >= 1 else None
-                if g2 and tile(span, g2):
+            for cut in range(nline - 1, 0, -1):
+                g2 = groups[:cut] + groups[nline:]          # the text starts earlier on the line; continuation words still count
+                if tile(span, g2):
                     groups, fixed = g2, True
-                    text = " ".join(toks[k - back:])
+                    text = " ".join(toks[cut:])
                     break
             if not fixed:
                 viol.append(("line-bytes", "line 0x%x shows %s but the output holds %s there" % (
